@@ -21,7 +21,8 @@ LEVEL = ("(Registry of 26 accessors incl. widths, diabatic/adiabatic couplings, 
          "on the units of the supplying context; (b) programs of nested energy/frequency/length contexts, with private "
          "exceptions unwound through one or more levels, must restore the current units of every type and the context "
          "flags after each exit; (c) each of ~40 public builder/calculator calls (including calls that raise) is made "
-         "inside a generated units context and must leave the caller's units unchanged.")
+         "inside a generated units context and must leave the caller's units unchanged."
+         " Later additions: accessors remove_cutoff_coupling, aggregate transitions (also in nm), FrequencyAxis.copy, the transition-width getter (open finding).")
 NOTE = ("The accessor and call registries are hand-enumerated from the code: an accessor or a leaking call that is not "
         "in the registry is not seen. 'nm' (reciprocal) is generated only for positive scalars/arrays where the "
         "conversion functions document it. Python lists are not generated (the conversion functions multiply by a float).")
